@@ -60,35 +60,36 @@ Identical(env, T, x, y) ==
     [] T.k = "struct" -> LET e2 == Bind(env, T) IN
                          \A i \in DOMAIN T.fields : Identical(e2, T.fields[i].t, x.fs[i], y.fs[i])
 
-(* Diff: the set of elementary differences between two values, each named  *)
-(* by its kind and the type at the position, e.g. "nil@[]uint8",           *)
-(* "twin@float64" (same class, other representation), "leaf@int",          *)
-(* "len@[]int", "key@map[int]int".  Labels, capacity and insertion order   *)
-(* are not differences.  Used to CLASSIFY rejected observations.           *)
+(* Diff: the set of KINDS of elementary differences between two values:    *)
+(* "leaf" (leaves of different class), "twin" (same class, other           *)
+(* representation: +0 / -0), "nil@ptr", "nil@slice", "nil@map",            *)
+(* "len@slice", "len@map", "key@map".  Labels, capacity and insertion      *)
+(* order are not differences.  Used to CLASSIFY rejected observations; the *)
+(* harness then shrinks the TYPE to a minimal one with the same class.     *)
 LenOf(c, f) == IF c.nil THEN 0 ELSE Len(c[f])
 RECURSIVE Diff(_, _, _, _)
 Diff(env, T, x, y) ==
   CASE T.k = "basic"  -> IF x.tok = y.tok THEN {}
-                         ELSE IF Rank(T.b, x.tok) = Rank(T.b, y.tok) THEN {"twin@" \o T.b} ELSE {"leaf@" \o T.b}
+                         ELSE IF Rank(T.b, x.tok) = Rank(T.b, y.tok) THEN {"twin"} ELSE {"leaf"}
     [] T.k = "named"  -> Diff(env, T.u, x, y)
     [] T.k = "self"   -> Diff(env, env[T.name], x, y)
     [] T.k = "ptr"    -> IF x.nil /\ y.nil THEN {}
-                         ELSE IF x.nil \/ y.nil THEN {"nil@" \o TStr(T)}
+                         ELSE IF x.nil \/ y.nil THEN {"nil@ptr"}
                          ELSE Diff(env, T.e, x.v, y.v)
     [] T.k = "slice"  ->
-         (IF x.nil # y.nil THEN {"nil@" \o TStr(T)} ELSE {}) \cup
-         (IF LenOf(x, "es") # LenOf(y, "es") THEN {"len@" \o TStr(T)} ELSE {}) \cup
+         (IF x.nil # y.nil THEN {"nil@slice"} ELSE {}) \cup
+         (IF LenOf(x, "es") # LenOf(y, "es") THEN {"len@slice"} ELSE {}) \cup
          (IF x.nil \/ y.nil THEN {}
           ELSE UNION {Diff(env, T.e, x.es[i], y.es[i]) : i \in DOMAIN x.es \cap DOMAIN y.es})
     [] T.k = "array"  -> UNION {Diff(env, T.e, x.es[i], y.es[i]) : i \in 1..T.len}
     [] T.k = "map"    ->
-         (IF x.nil # y.nil THEN {"nil@" \o TStr(T)} ELSE {}) \cup
-         (IF LenOf(x, "kv") # LenOf(y, "kv") THEN {"len@" \o TStr(T)} ELSE {}) \cup
+         (IF x.nil # y.nil THEN {"nil@map"} ELSE {}) \cup
+         (IF LenOf(x, "kv") # LenOf(y, "kv") THEN {"len@map"} ELSE {}) \cup
          (IF x.nil \/ y.nil THEN {}
           ELSE LET matched == {p \in (DOMAIN x.kv) \X (DOMAIN y.kv) : Eq(env, T.key, x.kv[p[1]].k, y.kv[p[2]].k)} IN
                (IF \/ \E i \in DOMAIN x.kv : ~\E p \in matched : p[1] = i
                    \/ \E j \in DOMAIN y.kv : ~\E p \in matched : p[2] = j
-                THEN {"key@" \o TStr(T)} ELSE {}) \cup
+                THEN {"key@map"} ELSE {}) \cup
                UNION {Diff(env, T.key, x.kv[p[1]].k, y.kv[p[2]].k) \cup Diff(env, T.e, x.kv[p[1]].v, y.kv[p[2]].v) : p \in matched})
     [] T.k = "struct" -> LET e2 == Bind(env, T) IN
                          UNION {Diff(e2, T.fields[i].t, x.fs[i], y.fs[i]) : i \in DOMAIN T.fields}
